@@ -93,6 +93,35 @@ pub fn run(case: &Value, ctx: &Ctx) -> Outcome {
         }
     }
 
+    // One Folded value is a VALUE: unfolding it with a fill is a function of (folded, fill) only - however often, in whatever
+    // order of fills, and from a clone, it is asked (Fold.tla: the fill is a parameter of the reading, not state of the fold).
+    if hist == ["fold"] {
+        for (iname, x, tol) in inputs.iter().take(2) {
+            let res = guarded(|| {
+                let s = Scs::new(x.clone(), shape.clone()).unwrap();
+                let folded = s.fold();
+                let mut seen: Vec<(String, Vec<f64>)> = Vec::new();
+                for (fname, fill) in FILLS.iter().chain(FILLS.iter().rev()) {
+                    seen.push((fname.to_string(), folded.into_spectrum(*fill).inner().as_slice().to_vec()));
+                }
+                let cloned = folded.clone();
+                for (fname, fill) in FILLS.iter().rev() {
+                    seen.push((format!("clone:{fname}"), cloned.into_spectrum(*fill).inner().as_slice().to_vec()));
+                }
+                seen
+            });
+            match res {
+                Ok(seen) => for (fname, gv) in seen {
+                    let fill = FILLS.iter().find(|(n, _)| fname.ends_with(n)).map(|(_, f)| *f).unwrap();
+                    let want = sym.eval(x, fill);
+                    out.check(gv.len() == want.len() && gv.iter().zip(&want).all(|(a, b)| same_bits_or_close(*a, *b, *tol)),
+                        || "fold/lib/shared-folded".to_string(), || json!({"fill": fname, "input": iname, "got": fmt(&gv), "want": fmt(&want)}));
+                },
+                Err(m) => out.fail("fold/lib/shared-folded/panic", json!({"panic": m})),
+            }
+        }
+    }
+
     // the binary: a single fold, optionally of the mirrored input
     if hist == ["fold"] || hist == ["mirror", "fold"] {
         for which in [0usize, 2, 4] {
